@@ -3,8 +3,9 @@
 \*  java -cp /opt/veriftools/tla/tla2tools.jar tlc2.TLC -deadlock -config MC_KeyCodec_int.cfg KeyCodec.tla)
 SPECIFICATION Spec
 CONSTANTS
-  Kind = "int"
+  Kinds = {"int"}
   Widths = {3, 4, 5, 6}
+  CompWidths = {3}
   E = 3
   M = 2
   AsWritten = FALSE
